@@ -120,6 +120,61 @@ func lenientDecode(nf string, b []byte) (*rawNode, bool) {
 	return n, err == nil
 }
 
+// loadEmptyCase: roots without a top node (a fresh root, the persisted root of an emptied tree): only the root record itself
+// can be wrong.
+func loadEmptyCase(id int, seed int64, out *json.Encoder) {
+	rng := rand.New(rand.NewSource(seed))
+	bf := []uint{2, 3, 4, 16}[rng.Intn(4)]
+	nf := []string{"bin", "v1"}[rng.Intn(2)]
+	st := newRecStore(fmt.Sprintf("loadempty-%d", id))
+	o := nfOf(nf)
+	o.BranchFactor = bf
+	cfg := &mast.RemoteConfig{KeysLike: 0, ValuesLike: 0, StoreImmutablePartsWith: st}
+	root := mast.NewRoot(&o)
+	if rng.Intn(2) == 0 {
+		m, err := root.LoadMast(ctx, cfg)
+		if err != nil {
+			panic(err)
+		}
+		n := 1 + rng.Intn(6)
+		for i := 0; i < n; i++ {
+			m.Insert(ctx, i, i)
+		}
+		if rng.Intn(2) == 0 {
+			if _, err := m.MakeRoot(ctx); err != nil {
+				panic(err)
+			}
+		}
+		for i := 0; i < n; i++ {
+			m.Delete(ctx, i, i)
+		}
+		root, err = m.MakeRoot(ctx)
+		if err != nil {
+			panic(err)
+		}
+	}
+	for _, pert := range []string{"none", "format-bogus", "format-misspelt", "format-empty"} {
+		r2 := *root
+		switch pert {
+		case "format-bogus":
+			r2.NodeFormat = "v9.9.9unknown"
+		case "format-misspelt":
+			r2.NodeFormat = "V1Marshaler"
+		case "format-empty":
+			r2.NodeFormat = ""
+		}
+		ev := loadEvent{Op: "lroot", ID: id, Pert: "empty-root-" + pert, NF: nf, Stored: nf, Keys: []int{}}
+		ev.FmtKnown = r2.NodeFormat == "" || r2.NodeFormat == "v1.1.5binary" || r2.NodeFormat == "v1marshaler"
+		ev.BF, ev.Height, ev.Size = int(r2.BranchFactor), int(r2.Height), int(r2.Size)
+		ev.HasLink = r2.Link != nil
+		ev.Res, ev.Msg = guard(func() error {
+			_, err := r2.LoadMast(ctx, cfg)
+			return err
+		})
+		out.Encode(ev)
+	}
+}
+
 func loadCase(id int, seed int64, out *json.Encoder) {
 	rng := rand.New(rand.NewSource(seed))
 	bf := []uint{2, 3, 4}[rng.Intn(3)]
